@@ -7,7 +7,6 @@ import (
 	"os"
 	"os/exec"
 	"runtime/debug"
-	"strings"
 	"time"
 
 	"verif/harness/vh"
@@ -21,27 +20,27 @@ import (
 func init() { vh.RegisterChild("c06run", childMain) }
 
 type wReq struct {
+	ID  int    `json:"id"`
 	Src string `json:"src"`
 }
 
 type wResp struct {
+	ID     int    `json:"id"`
 	Kind   string `json:"kind"`
 	Out    string `json:"out"`
 	Detail string `json:"detail"`
 }
 
 func childMain(args []string) int {
+	// the interpreter prints notices, var_dump output … straight to os.Stdout (fmt.Printf): the
+	// protocol goes over a private duplicate of fd 1, fd 1 itself to /dev/null
+	proto := vh.ProtocolStdout()
 	// a runaway recursion (cyclic array) should die quickly, not after growing a 1 GB stack
 	debug.SetMaxStack(96 << 20)
 	env := vh.NewEnv()
-	pre := env.RunSource("<?php\n"+classPrelude, "/verif-c06-prelude.php")
+	pre := env.RunSource("<?php\n"+classPrelude+xPrelude(), "/verif-c06-prelude.php")
 	in := bufio.NewReaderSize(os.Stdin, 1<<20)
-	out := bufio.NewWriter(os.Stdout)
-	// the interpreter prints notices with fmt.Printf; keep the protocol on a private fd
-	proto := os.NewFile(3, "proto")
-	if proto != nil {
-		out = bufio.NewWriter(proto)
-	}
+	out := bufio.NewWriter(proto)
 	n := 0
 	for {
 		line, err := in.ReadString('\n')
@@ -55,14 +54,14 @@ func childMain(args []string) int {
 		n++
 		if n%3000 == 0 {
 			env = vh.NewEnv()
-			pre = env.RunSource("<?php\n"+classPrelude, "/verif-c06-prelude.php")
+			pre = env.RunSource("<?php\n"+classPrelude+xPrelude(), "/verif-c06-prelude.php")
 		}
 		var rs wResp
 		if pre.Kind != "ok" {
-			rs = wResp{Kind: "prelude-" + pre.Kind, Detail: pre.Detail}
+			rs = wResp{ID: rq.ID, Kind: "prelude-" + pre.Kind, Detail: pre.Detail}
 		} else {
 			o := env.RunSource(rq.Src, "/verif-c06-case.php")
-			rs = wResp{Kind: o.Kind, Out: o.Out, Detail: o.Detail}
+			rs = wResp{ID: rq.ID, Kind: o.Kind, Out: o.Out, Detail: o.Detail}
 		}
 		b, _ := json.Marshal(rs)
 		out.Write(b)
@@ -72,6 +71,7 @@ func childMain(args []string) int {
 }
 
 type worker struct {
+	nReq  int
 	cmd   *exec.Cmd
 	in    *bufio.Writer
 	out   *bufio.Reader
@@ -84,18 +84,15 @@ func startWorker() (*worker, error) {
 	if err != nil {
 		return nil, err
 	}
-	pr, pw, err := os.Pipe()
+	pr, err := cmd.StdoutPipe() // the child answers on a private duplicate of this fd (vh.ProtocolStdout)
 	if err != nil {
 		return nil, err
 	}
-	cmd.ExtraFiles = []*os.File{pw}
-	cmd.Stdout = nil // notices of the interpreter are dropped
 	cmd.Stderr = nil
 	cmd.Env = append(os.Environ(), "GOMAXPROCS=2")
 	if err := cmd.Start(); err != nil {
 		return nil, err
 	}
-	pw.Close()
 	w := &worker{cmd: cmd, in: bufio.NewWriterSize(stdin, 1<<16), out: bufio.NewReaderSize(pr, 1<<20), lines: make(chan string, 1)}
 	go func() {
 		for {
@@ -127,7 +124,9 @@ func (r *runner) exec(src string) vh.Outcome {
 			}
 			r.w = w
 		}
-		b, _ := json.Marshal(wReq{Src: src})
+		r.w.nReq++
+		id := r.w.nReq
+		b, _ := json.Marshal(wReq{ID: id, Src: src})
 		r.w.in.Write(b)
 		r.w.in.WriteByte('\n')
 		if err := r.w.in.Flush(); err != nil {
@@ -135,6 +134,8 @@ func (r *runner) exec(src string) vh.Outcome {
 			r.w = nil
 			continue
 		}
+		timeout := time.After(60 * time.Second)
+	again:
 		select {
 		case l, ok := <-r.w.lines:
 			if !ok {
@@ -145,10 +146,15 @@ func (r *runner) exec(src string) vh.Outcome {
 			}
 			var rs wResp
 			if err := json.Unmarshal([]byte(l), &rs); err != nil {
-				return vh.Outcome{Kind: "bad-answer", Detail: strings.TrimSpace(l)}
+				// not a protocol line (nothing but the protocol should arrive here): skip it, never
+				// take it for the answer of this request
+				goto again
+			}
+			if rs.ID != id {
+				goto again // answer to an earlier request
 			}
 			return vh.Outcome{Kind: rs.Kind, Out: rs.Out, Detail: rs.Detail}
-		case <-time.After(60 * time.Second):
+		case <-timeout:
 			r.w.kill()
 			r.w = nil
 			r.crashes++
